@@ -29,6 +29,8 @@ def run(ck, fb):
     r19c(ck, fb)
     r19d(ck, fb)
     r19e(ck, fb)
+    r19f(ck, fb)
+    r19g(ck, fb)
 
 
 def r19a(ck, fb):
@@ -292,3 +294,128 @@ def r19e(ck, fb):
     for key in ('next_id:returns-next-free', 'next_id:advances-by-step', 'next_range:returns-next-free', 'next_range:advances-by-step', 'next_id:interp', 'next_range:interp'):
         ck.require(key not in bad, 'R19e', 'SequenceDbManager:' + key, '-', bad.get(key, ''), 'holds on the grid')
     ck.extra['named_sequence_grid_cases'] = n
+
+
+def r19f(ck, fb):
+    ck.rule('R19f', 'what is handed out is what was reserved: in SequenceManager::async_handle every range result (UseFromRange / FillRange / '
+                    'DirectRange) takes BOTH start and len from the reply of the replicated NextRange request (get_next_range), and the length '
+                    'requested from the replicated counter for a direct range is the caller\'s requested length (not the cache step)')
+    b = ck.main('rnacos::sequence::SequenceManager::async_handle', 'R19f')
+    if not b:
+        return
+    t = Taint(b, call_src=lambda t: 'SequenceManager::get_next_range' in ((t.get('f') or {}).get('d', '')))
+    n = 0
+    for (i, j, st) in b.aggregates(r'sequence::SequenceBeforeResult$'):
+        rv = st['rv']
+        v = rv.get('variant')
+        if v not in ('UseFromRange', 'FillRange', 'DirectRange'):
+            continue
+        n += 1
+        for f in ('start', 'len'):
+            if f not in rv.get('fields', []):
+                ck.bad('R19f', 'async_handle:%s:%s' % (v, f), b.where(i), '%s has no field %s' % (v, f))
+                continue
+            op = rv['ops'][rv['fields'].index(f)]
+            ck.require(t.op_tainted(op), 'R19f', 'async_handle:%s.%s<-reply' % (v, f), b.where(i),
+                       '%s.%s is not taken from the reply of the replicated NextRange request: the ids handed to the caller are not the ids the '
+                       'replicated counter reserved (a request longer than the reserved block re-issues ids on the next draw)' % (v, f))
+    ck.floor('R19f', 'range results built in async_handle', n, 3)
+    # the direct-range arm asks the replicated counter for the requested length
+    from rn.facts import pl_proj
+    nreq = 0
+    for s in b.calls(r'SequenceManager::get_next_range$'):
+        arms = [a for a in cfg.guard_atoms(b, s.bb) if a[0] == 'variant' and a[2] == 'GetDirectRange']
+        if not arms:
+            continue
+        nreq += 1
+        d = cfg.describe_operand(b, s.args[2])
+        ok = d['k'] == 'place' and any(isinstance(e, dict) and e.get('dc') == 'GetDirectRange' for e in pl_proj(d['pl']))
+        ck.require(ok, 'R19f', 'async_handle:GetDirectRange:requests-len', s.where(),
+                   'the direct-range arm reserves %s instead of the length the caller asked for' % cfg.fmt_desc(d)[:50])
+    ck.floor('R19f', 'direct-range reservation sites', nreq, 1)
+
+
+def r19g(ck, fb):
+    ck.rule('R19g', 'SeqGroup double buffer hands ids out in the order their ranges were reserved: by exhaustive interpretation of the compiled '
+                    'apply_range / next_id (with do_next_id, switch_state, SeqRange::{next_id,has_next,renew}) over every buffer state '
+                    '(current buffer a|b) x (current: unused ids left | exhausted) x (spare: unused ids left | exhausted | never filled), older '
+                    'ranges holding smaller ids than the newly applied one: after apply_range(new) draining the group yields strictly increasing '
+                    'ids and every unused old id before any new one. (The state space of the buffer logic is these 12 classes; ranges are '
+                    'instantiated with 2 ids each.)')
+    SG = 'rnacos::sequence::model::SeqGroup::'
+    fns = {}
+    for fn in ('apply_range', 'next_id'):
+        b = ck.body(SG + fn, 'R19g')
+        if not b:
+            return
+        fns[fn] = b
+    adt = fb.adts.get('rnacos::sequence::model::SeqGroup')
+    radt = fb.adts.get('rnacos::sequence::model::SeqRange')
+    if not adt or not radt:
+        ck.bad('R19g', 'anchor:SeqGroup', '-', 'SeqGroup / SeqRange type not found')
+        return
+    gnames = [f[0] for f in adt['variants'][0]['fields']]
+    rnames = [f[0] for f in radt['variants'][0]['fields']]
+    if not ck.require({'range_a', 'range_b', 'use_a'} <= set(gnames) and {'start', 'len', 'current_index'} <= set(rnames), 'R19g', 'SeqGroup:fields', fns['apply_range'].where(),
+                      'SeqGroup/SeqRange fields changed (%s / %s)' % (gnames, rnames)):
+        return
+
+    def rng(start, ln, cur):
+        vals = {'start': start, 'len': ln, 'current_index': cur}
+        return Adt('SeqRange', 'SeqRange', [BV.const(64, vals.get(n, 0)) for n in rnames], rnames)
+
+    def group(a, b, use_a):
+        vals = {'range_a': a, 'range_b': b, 'use_a': BV.const(1, int(use_a)), 'step': BV.const(64, 2), 'next_adding': BV.const(1, 0)}
+        return Adt('SeqGroup', 'SeqGroup', [vals[n] for n in gnames], gnames)
+
+    def call(fn, cell, *args):
+        it = Interp(fb)
+        return it.call_body(fns[fn], [Ref(frame=cell, place=0)] + list(args), 0)
+    n = 0
+    bad = {}
+    # buffer kinds: ('left', start) unused ids left; ('done', start) exhausted; ('never',) never filled
+    for use_a in (True, False):
+        for cur_kind in ('left', 'done'):
+            for spare_kind in ('left', 'done', 'never'):
+                # the current buffer was filled before the spare one unless the spare is exhausted/never filled
+                cur_start, spare_start = 10, 20
+                if spare_kind == 'done':
+                    cur_start, spare_start = 20, 10     # an exhausted spare is the older one
+                mk = {'left': lambda s0: rng(s0, 2, 1), 'done': lambda s0: rng(s0, 2, 2), 'never': lambda s0: rng(0, 0, 0)}
+                cur, spare = mk[cur_kind](cur_start), mk[spare_kind](spare_start)
+                old_left = sorted(([cur_start + 1] if cur_kind == 'left' else []) + ([spare_start + 1] if spare_kind == 'left' else []))
+                if cur_kind == 'left' and spare_kind == 'left':
+                    pass   # not requested by need_apply(), but harmless: only checks order of what comes out
+                g = group(cur, spare, True) if use_a else group(spare, cur, False)
+                cell = type('F', (), {})()
+                cell.locals = [g]
+                cell.body = None
+                key = 'current=%s(%s) spare=%s' % ('a' if use_a else 'b', cur_kind, spare_kind)
+                n += 1
+                try:
+                    call('apply_range', cell, BV.const(64, 100), BV.const(64, 2))
+                    out = []
+                    for _ in range(8):
+                        r = call('next_id', cell)
+                        if r.variant == 'None':
+                            break
+                        out.append(r.fields[0].value())
+                except (Undecided, Unsupported, Panic) as e:
+                    bad.setdefault('interpretable', 'cannot interpret SeqGroup in state %s: %s' % (key, e))
+                    continue
+                inc = all(x < y for x, y in zip(out, out[1:]))
+                if not inc:
+                    bad.setdefault('increasing', 'state %s, apply_range(100,2), then draining gives %s: an id is issued after a larger one' % (key, out))
+                news = [x for x in out if x >= 100]
+                if sorted(news) != [100, 101]:
+                    bad.setdefault('new-range-issued', 'state %s: the applied range is not handed out completely (%s)' % (key, out))
+                if cur_kind == 'left' and spare_kind != 'left':
+                    # nothing that was still unused may be lost or overtaken
+                    olds = [x for x in out if x < 100]
+                    if olds != old_left:
+                        bad.setdefault('old-ids-first', 'state %s: unused ids %s of the older range are lost or overtaken (%s)' % (key, old_left, out))
+    ck.floor('R19g', 'SeqGroup buffer states interpreted', n, 12)
+    for k in ('interpretable', 'increasing', 'new-range-issued', 'old-ids-first'):
+        ck.require(k not in bad, 'R19g', 'SeqGroup:' + k, fns['apply_range'].where(), bad.get(k, '') +
+                   (' - a refill that lands while the current buffer is exhausted must not overwrite it in front of the other buffer' if k == 'increasing' else ''),
+                   'holds in all %d states' % n)
